@@ -407,6 +407,12 @@ func injectorCallErrors(fset *token.FileSet, pos token.Pos, name string, calls [
 		// The generated code names the provider function, the struct type and
 		// its fields: they must be visible from the injector's package.
 		if c.pkg != nil && c.pkg.Path() != pkgPath {
+			if c.kind != valueExpr && !importableFrom(c.pkg.Path(), pkgPath) {
+				ts := types.TypeString(c.out, nil)
+				ec.add(notePosition(
+					fset.Position(pos),
+					fmt.Errorf("inject %s: provider for %s can't be used: package %s is internal and cannot be imported here", name, ts, c.pkg.Path())))
+			}
 			names := []string{c.name}
 			if c.kind == structProvider {
 				names = append(names, c.fieldNames...)
@@ -956,6 +962,23 @@ func disambiguate(name string, collides func(string) bool) string {
 	}
 }
 
+// importableFrom reports whether Go's rule for internal packages lets the
+// package at import path from import the package at import path path.
+func importableFrom(path, from string) bool {
+	path, from = unvendor(path), unvendor(from)
+	var i int
+	switch {
+	case strings.HasSuffix(path, "/internal"):
+		i = len(path) - len("internal")
+	case strings.Contains(path, "/internal/"):
+		i = strings.LastIndex(path, "/internal/") + 1
+	default:
+		return true
+	}
+	parent := path[:i-1]
+	return from == parent || strings.HasPrefix(from, parent+"/")
+}
+
 // accessibleFrom reports whether node can be copied to wantPkg without
 // violating Go visibility rules.
 func accessibleFrom(info *types.Info, node ast.Node, wantPkg string) error {
@@ -976,6 +999,10 @@ func accessibleFrom(info *types.Info, node ast.Node, wantPkg string) error {
 		if pkg := obj.Pkg(); pkg != nil {
 			if !ast.IsExported(ident.Name) && pkg.Path() != wantPkg {
 				unexportError = fmt.Errorf("uses unexported identifier %s", obj.Name())
+				return false
+			}
+			if pkg.Path() != wantPkg && !importableFrom(pkg.Path(), wantPkg) {
+				unexportError = fmt.Errorf("uses identifier %s of the internal package %s", obj.Name(), pkg.Path())
 				return false
 			}
 			if obj.Parent() != nil && obj.Parent() != pkg.Scope() {
